@@ -4,6 +4,7 @@ import GdcVerif.Model.J2kSample
 import GdcVerif.Model.J2kLossless
 import GdcVerif.Model.J2kTagTree
 import GdcVerif.Model.J2kPacketHeader
+import GdcVerif.Model.J2kProgression
 /-! Line-protocol ops for the JPEG 2000 pipeline-logic checks C19 / C04 / C05. -/
 namespace Drv.J2k
 open Drv
@@ -14,6 +15,18 @@ def bitsToStr (bs : List Bool) : String :=
   if bs.isEmpty then "-" else String.ofList (bs.map fun b => if b then '1' else '0')
 
 def strToBits (s : String) : List Bool := if s = "-" then [] else s.toList.map (· == '1')
+
+def posList (ps : List J2kProg.Pos) : String := String.join (ps.map fun p => s!" {p.1},{p.2}")
+
+/-- buildPositionMaps for components sharing one rectangle, sampling (1,1), one precinct size, indices 0..n[res]-1 -/
+def posMapsStr (nC nR : Nat) (b : Int × Int × Int × Int) (pw ph : Int) (n : List Nat) : String :=
+  let i : J2kProg.Inputs := ⟨nC, nR, fun _ => b, fun _ => (1, 1), fun _ => (pw, ph), fun _ r => List.range (n.getD r 0)⟩
+  let m := J2kProg.buildMaps i
+  let per := (List.range nR).map fun r =>
+    let ps := m.byRes r
+    let lk := ps.map fun p => match m.lookup 0 r p with | some v => s!" {v}" | none => " -1"
+    s!" r{r}:{posList ps} lk:{String.join lk}"
+  s!"ok{String.join per} all:{posList m.all}"
 
 def boolStr (b : Bool) : String := if b then "1" else "0"
 
@@ -151,6 +164,16 @@ def step? : List String → Option String
   | ["j2k-cbidx-enc", cbX0, pw, cbw] => some <| match ints? [cbX0, pw, cbw] with
     | some [b, c, d] => let r := J2k.encCbIndex 0 b c d; s!"ok {r.2}"
     | _ => "bad-op"
+  | ["j2k-poskey", x0, y0, x1, y1, dx, dy, lv, res, pw, ph, idx] =>
+    some <| match ints? [x0, y0, x1, y1, dx, dy, lv, res, pw, ph, idx] with
+    | some [x0, y0, x1, y1, dx, dy, lv, res, pw, ph, idx] =>
+      let g := Gen.J2kPosKey.precinctPositionKey ⟨x0, y0, x1, y1⟩ dx dy lv res pw ph idx
+      if g.2 then s!"ok {g.1.X} {g.1.Y}" else "none"
+    | _ => "bad-op"
+  | "j2k-posmaps" :: nC :: nR :: x0 :: y0 :: x1 :: y1 :: pw :: ph :: ns =>
+    some <| match ints? [nC, nR, x0, y0, x1, y1, pw, ph], ints? ns with
+    | some [nC, nR, x0, y0, x1, y1, pw, ph], some ns => posMapsStr nC.toNat nR.toNat (x0, y0, x1, y1) pw ph (ns.map Int.toNat)
+    | _, _ => "bad-op"
   | ["j2k-enclow-at", len, x0, n] => some <| match ints? [len, x0, n] with
     | some [len, x0, n] => s!"ok {J2k.encLowLen len x0 n.toNat}"
     | _ => "bad-op"
